@@ -97,18 +97,18 @@ func init() {
 		st := &engine.WalkStats{}
 		progs := engine.TemplatePrograms()
 		k := 2
-		nrand := 60
+		nrand, hi := 60, 8
 		if c.Tier == "thorough" {
-			k, nrand = 3, 600
+			k, nrand, hi = 3, 3000, 12
 		}
 		for kk := 1; kk <= k; kk++ {
 			progs = append(progs, engine.EnumeratePrograms([]bool{true}, kk)...)
+			progs = append(progs, engine.EnumeratePrograms([]bool{true, false}, kk)...)
 			if kk <= 2 {
-				progs = append(progs, engine.EnumeratePrograms([]bool{true, false}, kk)...)
 				progs = append(progs, engine.EnumeratePrograms([]bool{true, true}, kk)...)
 			}
 		}
-		progs = append(progs, engine.RandomPrograms(c.Seed+1, nrand, 4, 8)...)
+		progs = append(progs, engine.RandomPrograms(c.Seed+1, nrand, 4, hi)...)
 		for i, pr := range progs {
 			e.RunProgram(pr, st)
 			if i < 3 || (i > 20 && i < 23) {
